@@ -248,11 +248,35 @@ func (x *Exec) havocCall(st *State, sig *types.Signature, hint string) Val {
 	}
 	nh := vc.heapGet(st, "$alloc", as)
 	vc.assert(raw(fmt.Sprintf("(forall ((r Int)) (! (=> (select %s r) (select %s r)) :pattern ((select %s r))))", old.S, nh.S, nh.S), SBool))
-	for k := range st.ghost {
-		// ghost state is only changed by contracts
-		_ = k
-	}
+	// ghost state is only changed by contracts - except the ghosts the function under verification
+	// declares volatile (opt volatile a, b): they mirror real state that code of unknown effect may change
+	x.havocVolatile(st, nil)
 	return x.freshResults(st, sig, hint)
+}
+
+// volatileGhosts: ghost variables named in "opt volatile a, b" of the function under verification.
+func (x *Exec) volatileGhosts() []string {
+	if x.fc == nil || x.fc.Opts["volatile"] == "" {
+		return nil
+	}
+	var out []string
+	for _, n := range strings.Split(x.fc.Opts["volatile"], ",") {
+		if n = strings.TrimSpace(n); n != "" {
+			out = append(out, n)
+		}
+	}
+	return out
+}
+
+func (x *Exec) havocVolatile(st *State, except map[string]bool) {
+	for _, name := range x.volatileGhosts() {
+		if except[name] {
+			continue
+		}
+		if gs, ok := x.eng.ghostSorts[name]; ok {
+			st.ghost[name] = x.vc.freshConst("gv_"+name, x.eng.smtSort(gs, x.vc.ar.Mode))
+		}
+	}
 }
 
 func (x *Exec) externOrHavoc(fr *frame, st *State, full string, sig *types.Signature, args []Val, pos token.Pos) (Val, error) {
@@ -330,6 +354,13 @@ func (x *Exec) applyContract(fr *frame, st *State, fc *FuncContract, sig *types.
 	p := x.pos(pos)
 	vars := map[string]Val{}
 	for i, n := range names {
+		if args[i].Loc != nil && args[i].Typ != nil && isBigIntPtr(args[i].Typ) {
+			// a pointer to a big.Int embedded by value (x.f.Int), passed to a math/big method known
+			// by its contract only: the abstract reference big() is keyed by
+			if pt, ok := vc.absPtr(args[i].Loc); ok {
+				args[i] = Val{T: pt, Typ: args[i].Typ}
+			}
+		}
 		vars[n] = args[i]
 	}
 	pre := st.clone()
@@ -365,6 +396,11 @@ func (x *Exec) applyContract(fr *frame, st *State, fc *FuncContract, sig *types.
 				t, err := x.evalBool(cp.Expr, cenv)
 				if err != nil {
 					return Val{}, fmt.Errorf("%s:%d: callpre %s: %w", cp.File, cp.Line, key, err)
+				}
+				if j == 0 && vc.dry == 0 {
+					// vacuity guard: a rule at a call site that cannot be reached says nothing
+					vc.obls = append(vc.obls, &Obligation{Name: fmt.Sprintf("cover/%s/%s", site, key), Kind: "cover", Goal: Not(st.pc), TraceLen: len(vc.trace), Pos: p, ExpectSat: true,
+						Text: "call site reachable: " + short, Func: x.fc.Key(), Claimed: true})
 				}
 				oname := fmt.Sprintf("%s/callpre#%d", site, j)
 				if strings.Contains(key, "#") {
@@ -461,9 +497,19 @@ func (x *Exec) applyContract(fr *frame, st *State, fc *FuncContract, sig *types.
 				}
 			}
 		}
+		if fc.ModAll {
+			// a callee that may write anything may change the real state the volatile ghosts mirror
+			// (callees with a precise modifies clause change exactly what they list)
+			for _, n := range x.volatileGhosts() {
+				gl = append(gl, n)
+			}
+		}
 		sort.Strings(gl)
 		for _, name := range gl {
 			if _, explicit := fc.Opts["ghost:"+name]; explicit {
+				continue
+			}
+			if _, declared := fc.Opts["modghost:"+name]; !declared && fc.Opts["keepghost:"+name] != "" {
 				continue
 			}
 			if gs, ok := x.eng.ghostSorts[name]; ok {
